@@ -34,6 +34,8 @@ func tsTokens(s string) []string {
 	return out
 }
 
+var tsArAliasRe = regexp.MustCompile(`\bAr[0-9]+_[A-Za-z0-9_]+`)
+
 var tsDeclNameRe = regexp.MustCompile(`(?m)^\s*export\s+(?:type|interface|const)\s+([A-Za-z_$][A-Za-z0-9_$]*)`)
 
 func runC03(r *rep.Report, thorough bool) error {
@@ -118,6 +120,13 @@ func runC03(r *rep.Report, thorough bool) error {
 			// an enum / union Kind legitimately declares a const and a type of the same name
 			if cnt > 2 {
 				r.Fail(rep.Failure{Signature: "c03:name-declared-several-times" + c03Shape(a, gorun.Line{}), What: "TypeScript name " + name + " is declared " + fmt.Sprint(cnt) + " times", Input: in})
+			}
+		}
+		// every fixed-array alias the real text mentions is declared in it
+		for _, m := range tsArAliasRe.FindAllString(lineCommentRe.ReplaceAllString(text, ""), -1) {
+			if declared[m] == 0 {
+				r.Fail(rep.Failure{Signature: "c03:mentioned-name-not-declared" + c03Shape(a, gorun.Line{}), What: "the TypeScript text mentions the tuple alias " + m + " and does not declare it", Input: in})
+				break
 			}
 		}
 		if strings.Contains(text, "export type ( ") {
